@@ -3,11 +3,16 @@
 //! Real code driven:
 //!  * `InstructionLoader::load_and_init_instruction` / `load_instruction`, `InstructionAccess::to_instruction`
 //!    on a real (zeroed, exactly sized) buffer account; raw bytes printed                        (Ix)
-//!  * `InstructionHeader::{approve,is_approved,approved_at,apporver,is_executable}` (clock stub),
-//!    `TimelockConfig::{init,increase_delay,delay}`, `Executor::{try_init,role_name}`,
-//!    `roles::timelocked_role`, `Store::{enable_role,grant,revoke,has_role}`                     (Hist)
-//!  The order of the checks inside the timelock instruction handlers and their Anchor constraints
-//!  are re-stated in this driver (see notes/C36.md).
+//!  * histories of REAL instructions through the program entrypoint `gmsol_timelock::entry` on a mini
+//!    in-process runtime (harness/src/g9prog.rs): `initialize_executor`, `create_instruction_buffer`
+//!    (Anchor `init` -> system-program CreateAccount implemented by the runtime), `approve_instruction`,
+//!    `cancel_instruction`, `execute_instruction`, `increase_delay`.  Role checks are real CPIs into
+//!    `gmsol_store::entry` (`check_role`, result through return data); the executed instruction is the
+//!    one recorded from the program's own `invoke_signed`, with the runtime's signer rule (a signer of
+//!    the inner instruction must be a PDA of the timelock program for the given seeds).  Failed
+//!    instructions roll every account back.  Role grants / revocations edit the real role table in the
+//!    store account with `Store::{grant,revoke}`; the timelock config account is written by the real
+//!    `TimelockConfig::init` (the `initialize_config` handler also moves the store authority).   (Hist)
 use anchor_lang::prelude::*;
 use anchor_lang::solana_program::instruction::Instruction;
 use anchor_lang::Discriminator;
@@ -19,7 +24,10 @@ use gmsol_timelock::states::{
     InstructionLoader,
 };
 use gmsol_timelock::verif_hooks as hk;
+use anchor_lang::solana_program::instruction::AccountMeta;
+use anchor_lang::solana_program::program_error::ProgramError;
 use gmsol_verif_harness::g9rt::{self, Arena};
+use gmsol_verif_harness::{g9mk, g9prog};
 use gmsol_verif_harness::*;
 
 fn code(e: &anchor_lang::error::Error) -> u32 {
@@ -183,7 +191,7 @@ fn gen_ix(rng: &mut Rng) {
     drop(rf);
 }
 
-// ------------------------------------------------------------------ Hist
+// ------------------------------------------------------------------ Hist (real entrypoints)
 const EXEC_ROLES: [&str; 3] = ["ADMIN", "MARKET_KEEPER", "CONFIG_KEEPER"];
 
 fn role_name(code: u64) -> String {
@@ -194,13 +202,44 @@ fn role_name(code: u64) -> String {
     }
 }
 
+/// Canonical code of a failed instruction.
+fn pcode(e: &ProgramError) -> u32 {
+    let c = g9prog::perr_code(e);
+    let m = |x: CoreError| -> u32 { x.into() };
+    let a = |x: anchor_lang::error::ErrorCode| -> u32 { x.into() };
+    if c == m(CoreError::InvalidArgument) {
+        1
+    } else if c == m(CoreError::PreconditionsAreNotMet) {
+        2
+    } else if c == m(CoreError::PermissionDenied) {
+        3
+    } else if c == m(CoreError::Internal) {
+        4
+    } else if c == a(anchor_lang::error::ErrorCode::AccountOwnedByWrongProgram)
+        || c == a(anchor_lang::error::ErrorCode::AccountNotInitialized)
+        || c == a(anchor_lang::error::ErrorCode::AccountDiscriminatorNotFound)
+    {
+        5 // the buffer account is gone
+    } else if (2000..3000).contains(&c) {
+        6 // an Anchor account constraint (seeds / has_one / ...)
+    } else {
+        c
+    }
+}
+
 struct Buf {
     open: bool,
     role: u64,
     ix: u64,
-    idx: usize, // arena index of the buffer account
+    idx: usize,  // arena index of the buffer account
+    inner: usize, // arena index of the inner instruction's own account
+    creator: u64,
     wanted: Instruction,
     napprove: u64,
+    // last observed header
+    approved: bool,
+    approver: u64,
+    approved_at: i64,
 }
 
 fn pid(k: Option<&Pubkey>, people: &[(u64, Pubkey)]) -> u64 {
@@ -210,36 +249,65 @@ fn pid(k: Option<&Pubkey>, people: &[(u64, Pubkey)]) -> u64 {
     }
 }
 
+const TL: Pubkey = gmsol_timelock::ID;
+
+fn tl_call(ar: &mut Arena, metas: &[g9prog::Meta], data: Vec<u8>) -> std::result::Result<(), ProgramError> {
+    g9prog::call(gmsol_timelock::entry, &TL, ar, metas, &data)
+}
+
 fn gen_hist(rng: &mut Rng) {
+    use anchor_lang::InstructionData;
+    use gmsol_timelock::instruction as tix;
     let mut ar = Arena::new();
     let mut rf = Refs::new();
+    g9rt::set_dispatcher(Some(g9prog::dispatcher(TL)));
+    let _ = g9rt::take_invokes();
+    let sys = anchor_lang::system_program::ID;
+    let loader_id = g9rt::key(999);
     let store_key = g9rt::key(10);
+    let i_store_prog = ar.add(gmsol_store::ID, loader_id, 1, &[], false, false, true);
+    let i_sys = ar.add(sys, loader_id, 1, &[], false, false, true);
+    let i_ixprog = ar.add(g9rt::key(1200), loader_id, 1, &[], false, false, true);
     // real store with all roles enabled
-    let mut store: Store = bytemuck::Zeroable::zeroed();
-    store.init(g9rt::key(1), "", 255, g9rt::key(2), g9rt::key(3)).unwrap();
-    for c in [1u64, 2, 100, 101, 102] {
-        store.enable_role(&role_name(c)).unwrap();
-    }
     let people: Vec<(u64, Pubkey)> = (1..=5u64).map(|i| (i, g9rt::key(900 + i))).collect();
     let key_of = |p: u64| people[(p - 1) as usize].1;
     let mut roles_init: Vec<(u64, u64)> = vec![(1, 1), (2, 2), (3, 100), (3, 101), (4, 102), (5, 100)];
     if rng.chance(1, 3) { roles_init.push((2, 100)); }
-    for (p, r) in &roles_init {
-        store.grant(&key_of(*p), &role_name(*r)).unwrap();
-    }
-    // real config
+    let i_store = {
+        let mut store: Box<Store> = g9mk::zeroed_box();
+        store.init(g9rt::key(1), "", 255, g9rt::key(2), g9rt::key(3)).unwrap();
+        for c in [1u64, 2, 100, 101, 102] {
+            store.enable_role(&role_name(c)).unwrap();
+        }
+        for (p, r) in &roles_init {
+            store.grant(&key_of(*p), &role_name(*r)).unwrap();
+        }
+        ar.add(store_key, gmsol_store::ID, 1_000_000_000, &g9rt::zero_copy_data(&*store), false, false, false)
+    };
+    let i_people: Vec<usize> = people.iter().map(|(_, k)| ar.add(*k, sys, 1_000_000_000_000, &[], false, false, false)).collect();
+    let ip = |p: u64| i_people[(p - 1) as usize];
+    // real config (the initialize_config handler also transfers the store authority; the account is
+    // written by the real TimelockConfig::init instead)
     let delay0 = *rng.pick(&[0u32, 1, 1, 60, 60, 3600, 3600, 86400, u32::MAX - 5, u32::MAX]);
-    let mut config: TimelockConfig = bytemuck::Zeroable::zeroed();
-    hk::config_init(&mut config, 255, delay0, store_key);
-    // real executors
-    let mut executors: Vec<(Pubkey, Executor, Pubkey, u8)> = vec![];
-    for (i, name) in EXEC_ROLES.iter().enumerate() {
-        let ek = g9rt::key(500 + i as u64);
-        let (wallet, wb) = find_executor_wallet_pda(&ek, &gmsol_timelock::ID);
-        let mut e: Executor = bytemuck::Zeroable::zeroed();
-        hk::executor_try_init(&mut e, 254, wb, store_key, name).unwrap();
-        executors.push((ek, e, wallet, wb));
+    let i_config = {
+        let mut config: TimelockConfig = bytemuck::Zeroable::zeroed();
+        hk::config_init(&mut config, 255, delay0, store_key);
+        ar.add(g9rt::key(11), TL, 1_000_000, &g9rt::zero_copy_data(&config), false, false, false)
+    };
+    // executors: created by the REAL initialize_executor instruction
+    let mut executors: Vec<(usize, usize, Pubkey, Pubkey)> = vec![]; // executor idx, wallet idx, executor key, wallet key
+    for name in EXEC_ROLES.iter() {
+        let seed = gmsol_store::utils::fixed_str::fixed_str_to_bytes::<{ gmsol_store::states::MAX_ROLE_NAME_LEN }>(name).unwrap();
+        let (ek, _) = Pubkey::find_program_address(&[<Executor as gmsol_store::states::Seed>::SEED, store_key.as_ref(), &seed], &TL);
+        let (wallet, _) = find_executor_wallet_pda(&ek, &TL);
+        let i_e = ar.add(ek, sys, 0, &[], false, false, false);
+        let i_w = ar.add(wallet, sys, 0, &[], false, false, false);
+        tl_call(&mut ar, &[(ip(1), true, true), (i_store, false, false), (i_e, false, true), (i_w, false, false), (i_sys, false, false)],
+            tix::InitializeExecutor { role: name.to_string() }.data()).expect("initialize_executor");
+        assert_eq!(ar.mems[i_e].owner(), TL);
+        executors.push((i_e, i_w, ek, wallet));
     }
+    let _ = g9rt::take_invokes();
     let mut now: i64 = match rng.below(4) { 0 => 0, 1 => 1_700_000_000, 2 => i64::MAX - 100_000, _ => rng.below(1 << 40) as i64 };
     g9rt::set_clock(1, now);
     let mut bufs: Vec<Buf> = vec![];
@@ -247,28 +315,36 @@ fn gen_hist(rng: &mut Rng) {
     let mut next_ix = 1u64;
     let n_ops = rng.range(6, 22);
     let mut items: Vec<String> = vec![];
-    let has = |store: &Store, p: u64, r: u64| -> bool { store.has_role(&people[(p - 1) as usize].1, &role_name(r)).unwrap_or(false) };
-    let roles_term = format!("[{}]", roles_init.iter().map(|(p, r)| format!("({p}, {r})")).collect::<Vec<_>>().join("; "));
     let mut any_exec = false;
     let mut any_reject_time = false;
+    let roles_term = format!("[{}]", roles_init.iter().map(|(p, r)| format!("({p}, {r})")).collect::<Vec<_>>().join("; "));
+    let delay_of = |ar: &Arena| -> u32 { bytemuck::from_bytes::<TimelockConfig>(&ar.mems[i_config].data()[8..]).delay() };
 
     for _ in 0..n_ops {
         let live: Vec<usize> = (0..bufs.len()).filter(|i| bufs[*i].open).collect();
         let pick_id = |rng: &mut Rng| -> u64 {
             if !live.is_empty() && rng.chance(9, 10) { live[rng.below(live.len() as u64) as usize] as u64 } else { rng.below(bufs.len() as u64 + 1) }
         };
-        let snap = |bufs: &Vec<Buf>, ar: &Arena, id: Option<u64>, config: &TimelockConfig, now: i64, nexec: u64, rf: &mut Refs| -> String {
-            let bt = match id.and_then(|i| bufs.get(i as usize)) {
+        let snap = |bufs: &mut Vec<Buf>, ar: &Arena, id: Option<u64>, now: i64, nexec: u64, rf: &mut Refs| -> String {
+            let bt = match id.and_then(|i| bufs.get_mut(i as usize)) {
                 None => "None".to_string(),
                 Some(bf) => {
-                    // read the REAL header
-                    let loader: AccountLoader<'static, InstructionHeader> = AccountLoader::try_from(rf.r(ar.info(bf.idx))).unwrap();
-                    let h = loader.load().unwrap();
-                    format!("(Some (mkBuf {} {} {} {} {} {} {}))", b(bf.open), bf.role, bf.ix, b(h.is_approved()),
-                        pid(h.apporver(), &people), z(h.approved_at().unwrap_or(0)), bf.napprove)
+                    if bf.open {
+                        // read the REAL header from the account
+                        let loader: AccountLoader<'static, InstructionHeader> = AccountLoader::try_from(rf.r(ar.info(bf.idx))).unwrap();
+                        let h = loader.load().unwrap();
+                        bf.approved = h.is_approved();
+                        bf.approver = pid(h.apporver(), &people);
+                        bf.approved_at = h.approved_at().unwrap_or(0);
+                    } else {
+                        // closed for real: no lamports, no data, back to the system program
+                        let m = &ar.mems[bf.idx];
+                        assert!(m.lamports() == 0 && m.data_len() == 0 && m.owner() == sys);
+                    }
+                    format!("(Some (mkBuf {} {} {} {} {} {} {}))", b(bf.open), bf.role, bf.ix, b(bf.approved), bf.approver, z(bf.approved_at), bf.napprove)
                 }
             };
-            format!("Ok ({bt}, {}, {}, {nexec})", config.delay(), z(now))
+            format!("Ok ({bt}, {}, {}, {nexec})", delay_of(ar), z(now))
         };
         let choice = if bufs.is_empty() { 0 } else { rng.below(22) };
         match choice {
@@ -276,23 +352,37 @@ fn gen_hist(rng: &mut Rng) {
                 let caller = if rng.chance(4, 5) { 2 } else { 1 + rng.below(5) };
                 let role = rng.below(3);
                 let ix = next_ix;
-                let r: std::result::Result<u64, u32> = (|| {
-                    if !has(&store, caller, 2) { return Err(3); }
-                    let (ek, _, wallet, wb) = &executors[role as usize];
-                    // a small instruction whose content identifies `ix`
-                    let data = ix.to_le_bytes().to_vec();
-                    let keys = [(g9rt::key(1100 + ix), true), (*wallet, false)];
-                    let space = 8 + init_space(keys.len(), data.len());
-                    let i_buf = ar.add(g9rt::key(2000 + bufs.len() as u64), gmsol_timelock::ID, 10_000_000, &vec![0u8; space], false, true, false);
-                    let infos: Vec<AccountInfo<'static>> = keys.iter().map(|(k, w)| { let i = ar.add(*k, anchor_lang::system_program::ID, 0, &[], false, *w, false); ar.info(i) }).collect();
-                    let loader: AccountLoader<'static, InstructionHeader> = AccountLoader::try_from_unchecked(&gmsol_timelock::ID, rf.r(ar.info(i_buf))).unwrap();
-                    let wanted = loader.load_and_init_instruction(*ek, *wb, key_of(caller), g9rt::key(1200), &data, &infos, &[1u16])
-                        .map_err(|e| code(&e))?.to_instruction(false).unwrap();
-                    bufs.push(Buf { open: true, role, ix, idx: i_buf, wanted, napprove: 0 });
-                    next_ix += 1;
-                    Ok(bufs.len() as u64 - 1)
-                })();
-                let rs = match r { Ok(id) => snap(&bufs, &ar, Some(id), &config, now, nexec, &mut rf), Err(e) => format!("Err {e}") };
+                let (i_e, i_w, ek, wallet) = executors[role as usize];
+                // a small instruction whose content identifies `ix`
+                let data = ix.to_le_bytes().to_vec();
+                let i_inner = ar.add(g9rt::key(1100 + ix + 50 * bufs.len() as u64), sys, 0, &[], false, false, false);
+                let i_buf = ar.add(g9rt::key(2000 + bufs.len() as u64 + 100 * ix), sys, 0, &[], false, false, false);
+                let metas = [(ip(caller), true, true), (i_store, false, false), (i_e, false, false), (i_buf, true, true),
+                    (i_ixprog, false, false), (i_store_prog, false, false), (i_sys, false, false),
+                    (i_inner, false, true), (i_w, false, false)];
+                let r = tl_call(&mut ar, &metas, tix::CreateInstructionBuffer { num_accounts: 2, data_len: data.len() as u16, data: data.clone(), signers: vec![1] }.data());
+                let _ = g9rt::take_invokes();
+                let rs = match r {
+                    Ok(()) => {
+                        let loader: AccountLoader<'static, InstructionHeader> = AccountLoader::try_from(rf.r(ar.info(i_buf))).unwrap();
+                        let wanted = loader.load_instruction().unwrap().to_instruction(false).unwrap();
+                        // what was asked for, stated independently
+                        let expect = Instruction { program_id: g9rt::key(1200), data,
+                            accounts: vec![AccountMeta { pubkey: ar.mems[i_inner].key(), is_signer: false, is_writable: true },
+                                           AccountMeta { pubkey: wallet, is_signer: true, is_writable: false }] };
+                        assert_eq!(wanted, expect);
+                        {
+                            let h = loader.load().unwrap();
+                            assert_eq!(*h.executor(), ek);
+                            assert_eq!(*h.rent_receiver(), key_of(caller));
+                        }
+                        bufs.push(Buf { open: true, role, ix, idx: i_buf, inner: i_inner, creator: caller, wanted, napprove: 0, approved: false, approver: 0, approved_at: 0 });
+                        next_ix += 1;
+                        let id = bufs.len() as u64 - 1;
+                        snap(&mut bufs, &ar, Some(id), now, nexec, &mut rf)
+                    }
+                    Err(e) => format!("Err {}", pcode(&e)),
+                };
                 items.push(format!("(TCreate {caller} {role} {ix}, {rs})"));
             }
             3..=7 => {
@@ -300,91 +390,127 @@ fn gen_hist(rng: &mut Rng) {
                 let brole = bufs.get(id as usize).map(|x| x.role).unwrap_or(0);
                 let role = if rng.chance(9, 10) { brole } else { rng.below(3) };
                 let caller = match rng.below(6) { 0 | 1 | 2 => if role == 2 { 4 } else { 3 }, 3 => 5, _ => 1 + rng.below(5) };
-                let r: std::result::Result<(), u32> = (|| {
-                    let bf = bufs.get_mut(id as usize).filter(|x| x.open).ok_or(5u32)?;
-                    // Anchor constraint executor.role_name == role, on the REAL executor
-                    if executors[bf.role as usize].1.role_name().unwrap() != EXEC_ROLES[role as usize] { return Err(1); }
-                    if !has(&store, caller, 100 + role) { return Err(3); }
-                    let loader: AccountLoader<'static, InstructionHeader> = AccountLoader::try_from(rf.r(ar.info(bf.idx))).unwrap();
-                    hk::header_approve(&mut loader.load_mut().unwrap(), key_of(caller)).map_err(|e| code(&e))?; // REAL
-                    bf.napprove += 1;
-                    Ok(())
-                })();
-                let rs = match r { Ok(()) => snap(&bufs, &ar, Some(id), &config, now, nexec, &mut rf), Err(e) => format!("Err {e}") };
+                let r: std::result::Result<(), u32> = match bufs.get(id as usize) {
+                    None => Err(5), // there is no such account
+                    Some(bf) => {
+                        let (i_e, _, _, _) = executors[bf.role as usize];
+                        let metas = [(ip(caller), true, false), (i_store, false, false), (i_e, false, false), (bf.idx, false, true), (i_store_prog, false, false)];
+                        if bf.open && role == bf.role {
+                            // side checks (failed instructions leave no trace): the approver must sign, and an
+                            // executor other than the buffer's own is refused
+                            let mut m2 = metas;
+                            m2[0].1 = false;
+                            assert!(tl_call(&mut ar, &m2, tix::ApproveInstruction { role: EXEC_ROLES[role as usize].to_string() }.data()).is_err());
+                            let other = (bf.role + 1) % 3;
+                            let mut m3 = metas;
+                            m3[2].0 = executors[other as usize].0;
+                            assert!(tl_call(&mut ar, &m3, tix::ApproveInstruction { role: EXEC_ROLES[other as usize].to_string() }.data()).is_err());
+                        }
+                        tl_call(&mut ar, &metas, tix::ApproveInstruction { role: EXEC_ROLES[role as usize].to_string() }.data()).map_err(|e| pcode(&e))
+                    }
+                };
+                let _ = g9rt::take_invokes();
+                if r.is_ok() { bufs[id as usize].napprove += 1; }
+                let rs = match r { Ok(()) => snap(&mut bufs, &ar, Some(id), now, nexec, &mut rf), Err(e) => format!("Err {e}") };
                 items.push(format!("(TApprove {caller} {role} {id}, {rs})"));
             }
             8 => {
                 let id = pick_id(rng);
                 let caller = if rng.chance(3, 4) { 1 } else { 1 + rng.below(5) };
-                let r: std::result::Result<(), u32> = (|| {
-                    if !has(&store, caller, 1) { return Err(3); }
-                    let bf = bufs.get_mut(id as usize).filter(|x| x.open).ok_or(5u32)?;
-                    bf.open = false;
-                    Ok(())
-                })();
-                let rs = match r { Ok(()) => snap(&bufs, &ar, Some(id), &config, now, nexec, &mut rf), Err(e) => format!("Err {e}") };
+                let r: std::result::Result<(), u32> = match bufs.get(id as usize) {
+                    None => Err(5),
+                    Some(bf) => {
+                        let (i_e, _, _, _) = executors[bf.role as usize];
+                        let metas = [(ip(caller), true, false), (i_store, false, false), (i_e, false, false), (ip(bf.creator), false, true), (bf.idx, false, true), (i_store_prog, false, false)];
+                        if bf.open {
+                            // the rent goes back to the creator only
+                            let mut m2 = metas;
+                            m2[3].0 = ip(1 + bf.creator % 5);
+                            assert!(tl_call(&mut ar, &m2, tix::CancelInstruction {}.data()).is_err());
+                        }
+                        let before = ar.mems[ip(bf.creator)].lamports() + ar.mems[bf.idx].lamports();
+                        let r = tl_call(&mut ar, &metas, tix::CancelInstruction {}.data()).map_err(|e| pcode(&e));
+                        if r.is_ok() { assert_eq!(ar.mems[ip(bf.creator)].lamports(), before); }
+                        r
+                    }
+                };
+                let _ = g9rt::take_invokes();
+                if r.is_ok() { bufs[id as usize].open = false; }
+                let rs = match r { Ok(()) => snap(&mut bufs, &ar, Some(id), now, nexec, &mut rf), Err(e) => format!("Err {e}") };
                 items.push(format!("(TCancel {caller} {id}, {rs})"));
             }
             9..=13 => {
                 let id = pick_id(rng);
                 let caller = if rng.chance(5, 6) { 2 } else { 1 + rng.below(5) };
-                let r: std::result::Result<(), u32> = (|| {
-                    if !has(&store, caller, 2) { return Err(3); }
-                    let bf = bufs.get(id as usize).filter(|x| x.open).ok_or(5u32)?;
-                    let loader: AccountLoader<'static, InstructionHeader> = AccountLoader::try_from(rf.r(ar.info(bf.idx))).unwrap();
-                    let ixr = loader.load_instruction().map_err(|e| code(&e))?; // REAL
-                    let h = hk::instruction_ref_header(&ixr);
-                    let approver = *h.apporver().ok_or(2u32)?; // REAL
-                    let tl = roles::timelocked_role(executors[bf.role as usize].1.role_name().unwrap()); // REAL
-                    if !store.has_role(&approver, &tl).unwrap_or(false) { return Err(2); } // REAL role table
-                    if !h.is_executable(config.delay()).map_err(|e| code(&e))? { any_reject_time = true; return Err(2); } // REAL (clock stub)
-                    let ix = ixr.to_instruction(false).map_err(|_| 1u32)?; // REAL
-                    // the instruction handed to invoke_signed is exactly the one requested at creation
-                    assert_eq!(ix, bf.wanted);
-                    assert!(ix.accounts.iter().all(|a| !a.is_signer || a.pubkey == executors[bf.role as usize].2));
-                    Ok(())
-                })();
+                let r: std::result::Result<(), u32> = match bufs.get(id as usize) {
+                    None => Err(5),
+                    Some(bf) => {
+                        let (i_e, i_w, _, wallet) = executors[bf.role as usize];
+                        let metas = [(ip(caller), true, false), (i_store, false, false), (i_config, false, false), (i_e, false, false), (i_w, false, true),
+                            (ip(bf.creator), false, true), (bf.idx, false, true), (i_store_prog, false, false),
+                            (bf.inner, false, true), (i_w, false, false), (i_ixprog, false, false)];
+                        if bf.open {
+                            // the wallet of another executor is refused
+                            let mut m2 = metas;
+                            m2[4].0 = executors[((bf.role + 1) % 3) as usize].1;
+                            assert!(tl_call(&mut ar, &m2, tix::ExecuteInstruction {}.data()).is_err());
+                        }
+                        let _ = g9rt::take_invokes();
+                        let before = ar.mems[ip(bf.creator)].lamports() + ar.mems[bf.idx].lamports();
+                        let r = tl_call(&mut ar, &metas, tix::ExecuteInstruction {}.data()).map_err(|e| pcode(&e));
+                        let sent: Vec<Instruction> = g9rt::take_invokes().into_iter().filter(|i| i.program_id != gmsol_store::ID).collect();
+                        match &r {
+                            Ok(()) => {
+                                // exactly the buffered instruction went out, signed by the executor wallet only
+                                assert_eq!(sent, vec![bf.wanted.clone()]);
+                                assert!(sent[0].accounts.iter().all(|a| !a.is_signer || a.pubkey == wallet));
+                                assert_eq!(ar.mems[ip(bf.creator)].lamports(), before);
+                            }
+                            Err(_) => assert!(sent.is_empty()),
+                        }
+                        r
+                    }
+                };
+                if r == Err(2) && bufs[id as usize].approved { any_reject_time = true; }
                 if r.is_ok() { bufs[id as usize].open = false; nexec += 1; any_exec = true; }
-                let rs = match r { Ok(()) => snap(&bufs, &ar, Some(id), &config, now, nexec, &mut rf), Err(e) => format!("Err {e}") };
+                let rs = match r { Ok(()) => snap(&mut bufs, &ar, Some(id), now, nexec, &mut rf), Err(e) => format!("Err {e}") };
                 items.push(format!("(TExecute {caller} {id}, {rs})"));
             }
             14 => {
                 let caller = if rng.chance(3, 4) { 1 } else { 1 + rng.below(5) };
                 let delta = match rng.below(5) { 0 => 0u32, 1 => 1, 2 => 3600, 3 => u32::MAX, _ => rng.below(100_000) as u32 };
-                let r: std::result::Result<(), u32> = (|| {
-                    if !has(&store, caller, 1) { return Err(3); }
-                    if delta == 0 { return Err(1); } // require_neq!(delta, 0)
-                    hk::config_increase_delay(&mut config, delta).map(|_| ()).map_err(|e| code(&e)) // REAL
-                })();
-                let rs = match r { Ok(()) => snap(&bufs, &ar, None, &config, now, nexec, &mut rf), Err(e) => format!("Err {e}") };
+                let metas = [(ip(caller), true, true), (i_store, false, false), (i_config, false, true), (i_store_prog, false, false)];
+                let r = tl_call(&mut ar, &metas, tix::IncreaseDelay { delta }.data()).map_err(|e| pcode(&e));
+                let _ = g9rt::take_invokes();
+                let rs = match r { Ok(()) => snap(&mut bufs, &ar, None, now, nexec, &mut rf), Err(e) => format!("Err {e}") };
                 items.push(format!("(TIncreaseDelay {caller} {delta}, {rs})"));
             }
-            15 => {
-                let p = 1 + rng.below(5);
-                let rl = *rng.pick(&[1u64, 2, 100, 101, 102]);
-                let _ = store.grant(&key_of(p), &role_name(rl)); // REAL (already-granted is an error = no-op)
-                items.push(format!("(TGrant {p} {rl}, {})", snap(&bufs, &ar, None, &config, now, nexec, &mut rf)));
-            }
-            16 => {
-                let p = if rng.chance(1, 2) { 3 } else { 1 + rng.below(5) };
-                let rl = *rng.pick(&[100u64, 101, 102, 100, 2]);
-                let _ = store.revoke(&key_of(p), &role_name(rl)); // REAL
-                items.push(format!("(TRevoke {p} {rl}, {})", snap(&bufs, &ar, None, &config, now, nexec, &mut rf)));
+            15 | 16 => {
+                // role changes are store instructions (C33); here the REAL role table inside the store account is edited
+                let grant = choice == 15;
+                let (p, rl) = if grant { (1 + rng.below(5), *rng.pick(&[1u64, 2, 100, 101, 102])) }
+                              else { (if rng.chance(1, 2) { 3 } else { 1 + rng.below(5) }, *rng.pick(&[100u64, 101, 102, 100, 2])) };
+                {
+                    let store: &mut Store = bytemuck::from_bytes_mut(&mut ar.mems[i_store].data_mut()[8..]);
+                    let _ = if grant { store.grant(&key_of(p), &role_name(rl)) } else { store.revoke(&key_of(p), &role_name(rl)) };
+                }
+                items.push(format!("({} {p} {rl}, {})", if grant { "TGrant" } else { "TRevoke" }, snap(&mut bufs, &ar, None, now, nexec, &mut rf)));
             }
             _ => {
-                let d = config.delay() as i64;
+                let d = delay_of(&ar) as i64;
                 let dt: i64 = match rng.below(10) { 0 => 0, 1 => 1, 2 => d - 1, 3 | 4 | 5 => d, 6 | 7 => d + 1, 8 => rng.below(100_000) as i64, _ => d / 2 };
                 let dt = dt.max(0);
                 if now.checked_add(dt).is_some() {
                     now += dt;
                     g9rt::set_clock(1, now);
-                    items.push(format!("(TTick {dt}, {})", snap(&bufs, &ar, None, &config, now, nexec, &mut rf)));
+                    items.push(format!("(TTick {dt}, {})", snap(&mut bufs, &ar, None, now, nexec, &mut rf)));
                 } else {
                     items.push(format!("(TTick {dt}, Err 1)"));
                 }
             }
         }
     }
+    g9rt::set_dispatcher(None);
     let tag = if any_exec { "hist/executed" } else if any_reject_time { "hist/too_early" } else { "hist/no_exec" };
     emit(tag, &format!("Hist {delay0} {roles_term} {} [{}]", z(now_start(&items, now)), items.join("; ")));
     drop(rf);
